@@ -105,15 +105,15 @@ theorem repeat_key_lt (n c r bi : Nat) (hc : 0 < c) (hr : 0 < r) (hbi : bi < nbl
 
 /-! ## scan -/
 
-theorem scanBuild_some (s fuel len nb r : Nat) (h : scanBuild s fuel len nb = some r) : r = len := by
+theorem scanBuildOld_some (s fuel len nb r : Nat) (h : scanBuildOld s fuel len nb = some r) : r = len := by
   cases fuel with
   | zero =>
-    simp only [scanBuild] at h
+    simp only [scanBuildOld] at h
     split at h
     · injection h with h; exact h.symm
     · cases h
   | succ f =>
-    simp only [scanBuild] at h
+    simp only [scanBuildOld] at h
     split at h
     · injection h with h; exact h.symm
     · split at h
@@ -123,20 +123,20 @@ theorem scanBuild_some (s fuel len nb r : Nat) (h : scanBuild s fuel len nb = so
         · cases h
 
 /-- more than `s` blocks, not a multiple of `s`: the assertion fails whatever the fuel. -/
-theorem scanBuild_fails (s fuel len nb : Nat) (hs : 0 < s) (hgt : s < nb) (hmod : nb % s ≠ 0) :
-    scanBuild s fuel len nb = none := by
+theorem scanBuildOld_fails (s fuel len nb : Nat) (hs : 0 < s) (hgt : s < nb) (hmod : nb % s ≠ 0) :
+    scanBuildOld s fuel len nb = none := by
   cases fuel with
   | zero =>
     have : nb ≠ 1 := by omega
-    simp [scanBuild, this]
+    simp [scanBuildOld, this]
   | succ f =>
     have h1 : nb ≠ 1 := by omega
     have hmin : min s nb = s := by omega
-    simp only [scanBuild, h1, if_false, hmin]
-    cases hr : scanBuild s f (s * ((nb + s - 1) / s)) ((nb + s - 1) / s) with
+    simp only [scanBuildOld, h1, if_false, hmin]
+    cases hr : scanBuildOld s f (s * ((nb + s - 1) / s)) ((nb + s - 1) / s) with
     | none => rfl
     | some r =>
-      have hr' := scanBuild_some _ _ _ _ _ hr
+      have hr'   := scanBuildOld_some _ _ _ _ _ hr
       subst hr'
       have hne : s * ((nb + s - 1) / s) ≠ nb := by
         intro he
@@ -146,21 +146,21 @@ theorem scanBuild_fails (s fuel len nb : Nat) (hs : 0 < s) (hgt : s < nb) (hmod 
       simp [hne]
 
 /-- at most `s` blocks (and at least one): accepted. -/
-theorem scanBuild_small (s fuel len nb : Nat) (h1 : 1 ≤ nb) (hle : nb ≤ s) :
-    scanBuild s (fuel + 1) len nb = some len := by
+theorem scanBuildOld_small (s fuel len nb : Nat) (h1 : 1 ≤ nb) (hle : nb ≤ s) :
+    scanBuildOld s (fuel + 1) len nb = some len := by
   by_cases hnb : nb = 1
-  · simp [scanBuild, hnb]
+  · simp [scanBuildOld, hnb]
   · have hmin : min s nb = nb := by omega
     have hdiv : (nb + nb - 1) / nb = 1 := by
       apply Nat.div_eq_of_lt_le <;> omega
-    simp only [scanBuild, hnb, if_false, hmin, hdiv, Nat.mul_one]
+    simp only [scanBuildOld, hnb, if_false, hmin, hdiv, Nat.mul_one]
     cases fuel with
-    | zero => simp [scanBuild]
-    | succ f => simp [scanBuild]
+    | zero => simp [scanBuildOld]
+    | succ f => simp [scanBuildOld]
 
 /-- an exact multiple of `s`: accepted iff the recursive call on `nb / s` blocks is. -/
-theorem scanBuild_multiple (s fuel len q : Nat) (hs : 1 < s) (hq : 1 ≤ q) :
-    scanBuild s (fuel + 1) len (s * q) = (scanBuild s fuel (s * q) q).map (fun _ => len) := by
+theorem scanBuildOld_multiple (s fuel len q : Nat) (hs : 1 < s) (hq : 1 ≤ q) :
+    scanBuildOld s (fuel + 1) len (s * q) = (scanBuildOld s fuel (s * q) q).map (fun _ => len) := by
   have h1 : s * q ≠ 1 := by
     intro h
     have : s ≤ s * q := Nat.le_mul_of_pos_right s hq
@@ -172,11 +172,11 @@ theorem scanBuild_multiple (s fuel len q : Nat) (hs : 1 < s) (hq : 1 ≤ q) :
     · rw [Nat.mul_comm q s]; omega
     · have : (q + 1) * s = s * q + s := by rw [Nat.add_mul, Nat.one_mul, Nat.mul_comm]
       omega
-  simp only [scanBuild, h1, if_false, hmin, hdiv]
-  cases hr : scanBuild s fuel (s * q) q with
+  simp only [scanBuildOld, h1, if_false, hmin, hdiv]
+  cases hr : scanBuildOld s fuel (s * q) q with
   | none => rfl
   | some r =>
-    have := scanBuild_some _ _ _ _ _ hr
+    have   := scanBuildOld_some _ _ _ _ _ hr
     subst this
     simp
 
@@ -204,6 +204,89 @@ theorem scan_lookup_multiple (s q bi : Nat) (hs : 0 < s) (hq : 1 ≤ q) (hbi : b
   constructor
   · rw [Nat.div_lt_iff_lt_mul hs, Nat.mul_comm]; exact hbi
   · exact Nat.mod_lt _ hs
+
+/-! ## scan (repaired): the declared sizes of `reduced` add up to the number of blocks -/
+
+theorem sum_replicate (k v : Nat) : (List.replicate k v).sum = k * v := by
+  induction k with
+  | zero => simp
+  | succ n ih => rw [List.replicate_succ, List.sum_cons, ih, Nat.succ_mul]; omega
+
+theorem reducedSizes_sum (ss nb : Nat) : (reducedSizes ss nb).sum = nb := by
+  unfold reducedSizes
+  rw [List.sum_append, sum_replicate]
+  have := Nat.div_add_mod' nb ss
+  split
+  · rename_i h; simp; omega
+  · simp; omega
+
+theorem reducedSizes_length (ss nb : Nat) :
+    (reducedSizes ss nb).length = nb / ss + (if nb % ss = 0 then 0 else 1) := by
+  unfold reducedSizes
+  split <;> simp
+
+theorem scanBuild_some (s fuel len nb r : Nat) (h : scanBuild s fuel len nb = some r) : r = len := by
+  cases fuel with
+  | zero =>
+    simp only [scanBuild] at h
+    split at h
+    · injection h with h; exact h.symm
+    · cases h
+  | succ f =>
+    simp only [scanBuild] at h
+    split at h
+    · injection h with h; exact h.symm
+    · split at h
+      · cases h
+      · split at h
+        · injection h with h; exact h.symm
+        · cases h
+
+/-- with `split_every = 5` the repaired scan is accepted for every block count (enough fuel = `nb - 1` levels). -/
+theorem scanBuild_total (fuel len nb : Nat) (h1 : 1 ≤ nb) (hf : nb ≤ fuel + 1) :
+    scanBuild 5 fuel len nb = some len := by
+  induction fuel generalizing len nb with
+  | zero =>
+    have : nb = 1 := by omega
+    simp [scanBuild, this]
+  | succ f ih =>
+    by_cases hnb : nb = 1
+    · simp [scanBuild, hnb]
+    · simp only [scanBuild, hnb, if_false]
+      have hsum := reducedSizes_sum (min 5 nb) nb
+      have hlen := reducedSizes_length (min 5 nb) nb
+      have hl1 : 1 ≤ (reducedSizes (min 5 nb) nb).length ∧ (reducedSizes (min 5 nb) nb).length ≤ f + 1 := by
+        rw [hlen]
+        by_cases h5 : nb ≤ 5
+        · have hm : min 5 nb = nb := by omega
+          rw [hm, Nat.div_self (by omega), Nat.mod_self]
+          simp
+        · have hm : min 5 nb = 5 := by omega
+          rw [hm]
+          split <;> omega
+      rw [ih _ _ hl1.1 hl1.2, hsum]
+      simp
+
+/-- the increment block `bi // 5` exists and the slot `bi % 5` lies inside it (its declared size). -/
+theorem scan_lookup (nb bi : Nat) (hbi : bi < nb) :
+    ∃ sz, (reducedSizes (min 5 nb) nb)[scanIncKey 5 bi]? = some sz ∧ scanIncSlot 5 bi < sz := by
+  unfold scanIncKey scanIncSlot reducedSizes
+  by_cases h5 : nb ≤ 5
+  · have hm : min 5 nb = nb := by omega
+    have h0 : bi / 5 = 0 := by omega
+    rw [hm, Nat.div_self (by omega), Nat.mod_self, h0]
+    refine ⟨nb, by simp, by omega⟩
+  · have hm : min 5 nb = 5 := by omega
+    rw [hm]
+    by_cases hin : bi / 5 < nb / 5
+    · refine ⟨5, ?_, by omega⟩
+      rw [List.getElem?_append_left (by simpa using hin)]
+      simp [hin]
+    · have heq : bi / 5 = nb / 5 := by omega
+      have hne : nb % 5 ≠ 0 := by omega
+      refine ⟨nb % 5, ?_, by omega⟩
+      rw [List.getElem?_append_right (by simp; omega)]
+      simp [hne, heq]
 
 /-! ## concat: offsets, bisect, _array_slices -/
 
